@@ -1087,3 +1087,473 @@ theorem lazyIf_print (cfg : Cfg) (hs : CfgSane cfg) (ts : List Tok) (hw : ∀ t 
           cases lazyTok ts <;> simp [prT, printToks, hp]
 
 end Operon.Tmpl
+
+namespace Operon.Tmpl
+open Operon.Ribosome
+
+/-! ### block heads `\{\{#if\s+(\w+)\}\}` / `\{\{#each\s+(\w+)\}\}` -/
+
+def viewIfO : Tok → Option (Str × Str)
+  | .ifO ws n => some (ws, n)
+  | _ => none
+
+def viewEachO : Tok → Option (Str × Str)
+  | .eachO ws n => some (ws, n)
+  | _ => none
+
+theorem mHead_strip_none (cfg : Cfg) (pre s : Str) (h : stripPrefix pre s = none) : matchHead cfg pre s = none := by
+  simp [matchHead, h]
+
+theorem mHead_hit (cfg : Cfg) (hs : CfgSane2 cfg) (pre ws n rest : Str) (hws : SpaceRun cfg ws) (hn : WordName cfg n) :
+    matchHead cfg pre (pre ++ (ws ++ (n ++ 125 :: 125 :: rest))) = some (ws, n, rest) := by
+  obtain ⟨c, tl, rfl, hc⟩ := word_head hn
+  have h1 := spanP_word cfg.isSpace ws c (tl ++ 125 :: 125 :: rest) hws.2 (hs.disj c hc)
+  have h2 := spanP_word cfg.isWord (c :: tl) 125 (125 :: rest) hn.2 hs.rb
+  simp only [List.cons_append] at h1 h2
+  simp only [matchHead, stripPrefix_append, List.cons_append, h1, h2]
+  simp [hws.1, stripPrefix, RR]
+
+theorem mHeadIf_at (cfg : Cfg) (hs : CfgSane2 cfg) (t : Tok) (hw : t.wfs cfg) (htag : t.isTag = true) (rest : Str) :
+    matchHead cfg IFH (t.print ++ rest) = (viewIfO t).map (fun p => (p.1, p.2, rest)) := by
+  have third : ∀ (d : Nat) (s : Str), d ≠ 35 → matchHead cfg IFH (123 :: 123 :: d :: s) = none := by
+    intro d s hd
+    have : (35 = d) = False := by simp; omega
+    exact mHead_strip_none cfg _ _ (by simp [IFH, stripPrefix, this])
+  have word : ∀ n : Str, WordName cfg n → ∀ s, matchHead cfg IFH (123 :: 123 :: (n ++ s)) = none := by
+    intro n hn s
+    obtain ⟨c, tl, rfl, hc⟩ := word_head hn
+    exact third c _ (fun e => by rw [e, hs.hash] at hc; cases hc)
+  cases t with
+  | text s => cases htag
+  | val s => cases htag
+  | ifO ws n =>
+    have := mHead_hit cfg hs IFH ws n rest hw.1 hw.2
+    simpa [Tok.print, viewIfO, RR] using this
+  | els => exact mHead_strip_none cfg _ _ (by simp [Tok.print, IFH, ELSE, stripPrefix])
+  | eachO ws n => exact mHead_strip_none cfg _ _ (by simp [Tok.print, IFH, EACHH, stripPrefix])
+  | var n => simpa [Tok.print, tagOf, LL, viewIfO] using word n hw _
+  | pipe n a => simpa [Tok.print, pipeTag, LL, viewIfO] using word n hw.1 _
+  | dot => simpa [Tok.print, tagOf, kDot, LL, viewIfO] using third 46 _ (by decide)
+  | opt n => simpa [Tok.print, OPTH, viewIfO] using third 63 _ (by decide)
+  | inc n => simpa [Tok.print, INCH, viewIfO] using third 62 _ (by decide)
+  | ifC => simpa [Tok.print, ENDIF, viewIfO] using third 47 _ (by decide)
+  | eachC => simpa [Tok.print, ENDEACH, viewIfO] using third 47 _ (by decide)
+
+theorem mHeadEach_at (cfg : Cfg) (hs : CfgSane2 cfg) (t : Tok) (hw : t.wfs cfg) (htag : t.isTag = true) (rest : Str) :
+    matchHead cfg EACHH (t.print ++ rest) = (viewEachO t).map (fun p => (p.1, p.2, rest)) := by
+  have third : ∀ (d : Nat) (s : Str), d ≠ 35 → matchHead cfg EACHH (123 :: 123 :: d :: s) = none := by
+    intro d s hd
+    have : (35 = d) = False := by simp; omega
+    exact mHead_strip_none cfg _ _ (by simp [EACHH, stripPrefix, this])
+  have word : ∀ n : Str, WordName cfg n → ∀ s, matchHead cfg EACHH (123 :: 123 :: (n ++ s)) = none := by
+    intro n hn s
+    obtain ⟨c, tl, rfl, hc⟩ := word_head hn
+    exact third c _ (fun e => by rw [e, hs.hash] at hc; cases hc)
+  cases t with
+  | text s => cases htag
+  | val s => cases htag
+  | eachO ws n =>
+    have := mHead_hit cfg hs EACHH ws n rest hw.1 hw.2
+    simpa [Tok.print, viewEachO, RR] using this
+  | els => exact mHead_strip_none cfg _ _ (by simp [Tok.print, EACHH, ELSE, stripPrefix])
+  | ifO ws n => exact mHead_strip_none cfg _ _ (by simp [Tok.print, IFH, EACHH, stripPrefix])
+  | var n => simpa [Tok.print, tagOf, LL, viewEachO] using word n hw _
+  | pipe n a => simpa [Tok.print, pipeTag, LL, viewEachO] using word n hw.1 _
+  | dot => simpa [Tok.print, tagOf, kDot, LL, viewEachO] using third 46 _ (by decide)
+  | opt n => simpa [Tok.print, OPTH, viewEachO] using third 63 _ (by decide)
+  | inc n => simpa [Tok.print, INCH, viewEachO] using third 62 _ (by decide)
+  | ifC => simpa [Tok.print, ENDIF, viewEachO] using third 47 _ (by decide)
+  | eachC => simpa [Tok.print, ENDEACH, viewEachO] using third 47 _ (by decide)
+
+theorem needsLL_cond (cfg : Cfg) : NeedsLL (matchCond cfg) :=
+  needsLL_of_strip _ 35 [105, 102] (fun s h => by
+    have : matchHead cfg IFH s = none := mHead_strip_none cfg IFH s h
+    simp [matchCond, this])
+
+theorem needsLL_loop (cfg : Cfg) : NeedsLL (matchLoop cfg) :=
+  needsLL_of_strip _ 35 [101, 97, 99, 104] (fun s h => by
+    have : matchHead cfg EACHH s = none := mHead_strip_none cfg EACHH s h
+    simp [matchLoop, this])
+
+/-! ### token-level facts about `condGo` and `lazyTok` -/
+
+def verbatim : CSt → List Tok
+  | .out => []
+  | .thn ws n acc => .ifO ws n :: acc
+  | .els ws n t acc => .ifO ws n :: t ++ .els :: acc
+
+theorem condGo_no_close (ctx : Ctx) (r : List Tok) (h : Tok.ifC ∉ r) : ∀ st, condGo ctx st r = verbatim st ++ r := by
+  induction r with
+  | nil => intro st; cases st <;> simp [condGo, verbatim]
+  | cons t r ih =>
+    have ht : t ≠ .ifC := fun e => h (by simp [e])
+    have ih' := ih (fun hm => h (by simp [hm]))
+    intro st
+    cases st with
+    | out =>
+      cases t <;> first | (exact absurd rfl ht) | (simp [condGo, ih', verbatim])
+    | thn ws n acc =>
+      cases t <;> first | (exact absurd rfl ht) | (simp [condGo, ih', verbatim])
+    | els ws n a acc =>
+      cases t <;> first | (exact absurd rfl ht) | (simp [condGo, ih', verbatim])
+
+theorem splitTok_none (t0 : Tok) (r : List Tok) (h : splitTok t0 r = none) : t0 ∉ r := by
+  induction r with
+  | nil => simp
+  | cons t r ih =>
+    simp only [splitTok] at h
+    split at h
+    · cases h
+    · rename_i hne
+      have : splitTok t0 r = none := by cases hh : splitTok t0 r <;> simp [hh] at h ⊢
+      intro hm
+      rcases List.mem_cons.mp hm with e | e
+      · exact hne e.symm
+      · exact ih this e
+
+theorem lazyTok_none (r : List Tok) (h : lazyTok r = none) : Tok.ifC ∉ r := by
+  induction r with
+  | nil => simp
+  | cons t r ih =>
+    simp only [lazyTok] at h
+    split at h
+    · cases h
+    · split at h
+      · cases h
+      · rename_i hne
+        have : lazyTok r = none := by cases hh : lazyTok r <;> simp [hh] at h ⊢
+        intro hm
+        rcases List.mem_cons.mp hm with e | e
+        · exact hne e.symm
+        · exact ih this e
+
+theorem splitTok_of_not_mem (t0 : Tok) (r : List Tok) (h : t0 ∉ r) : splitTok t0 r = none := by
+  induction r with
+  | nil => rfl
+  | cons t r ih =>
+    have ht : t ≠ t0 := fun e => h (by simp [e])
+    simp [splitTok, ht, ih (fun hm => h (by simp [hm]))]
+
+theorem lazyTok_of_no_close (r : List Tok) (h : Tok.ifC ∉ r) : lazyTok r = none := by
+  induction r with
+  | nil => rfl
+  | cons t r ih =>
+    have ht : t ≠ .ifC := fun e => h (by simp [e])
+    have hr : Tok.ifC ∉ r := fun hm => h (by simp [hm])
+    simp [lazyTok, splitTok_of_not_mem _ _ hr, ht, ih hr]
+
+theorem condGo_els_split (ctx : Ctx) (ws n : Str) (t : List Tok) : ∀ (r acc e rest : List Tok),
+    splitTok .ifC r = some (e, rest) →
+    condGo ctx (.els ws n t acc) r = (if truthyOf ctx n then t else acc ++ e) ++ condGo ctx .out rest := by
+  intro r
+  induction r with
+  | nil => intro acc e rest h; simp [splitTok] at h
+  | cons x r ih =>
+    intro acc e rest h
+    simp only [splitTok] at h
+    split at h
+    · rename_i hx
+      subst hx
+      simp only [Option.some.injEq, Prod.mk.injEq] at h
+      obtain ⟨rfl, rfl⟩ := h
+      simp [condGo]
+    · rename_i hx
+      cases hh : splitTok .ifC r with
+      | none => simp [hh] at h
+      | some y =>
+        simp only [hh, Option.map, Option.some.injEq, Prod.mk.injEq] at h
+        obtain ⟨rfl, rfl⟩ := h
+        have := ih (acc ++ [x]) y.1 y.2 (by rw [hh])
+        cases x <;> first | (exact absurd rfl hx) | (simp [condGo, this])
+
+theorem condGo_lazy (ctx : Ctx) (ws n : Str) : ∀ (r acc a : List Tok) (e : Option (List Tok)) (rest : List Tok),
+    lazyTok r = some (a, e, rest) →
+    condGo ctx (.thn ws n acc) r = (if truthyOf ctx n then acc ++ a else e.getD []) ++ condGo ctx .out rest := by
+  intro r
+  induction r with
+  | nil => intro acc a e rest h; simp [lazyTok] at h
+  | cons x r ih =>
+    intro acc a e rest h
+    simp only [lazyTok] at h
+    by_cases hx : x = .els
+    · subst hx
+      cases hs : splitTok .ifC r with
+      | some y =>
+        simp only [hs, if_true, Option.map, Option.some.injEq, Prod.mk.injEq] at h
+        obtain ⟨rfl, rfl, rfl⟩ := h
+        simp [condGo, condGo_els_split ctx ws n acc r [] y.1 y.2 (by rw [hs])]
+      | none =>
+        have hnc := splitTok_none _ _ hs
+        have : lazyTok r = none := lazyTok_of_no_close r hnc
+        simp [hs, this] at h
+    · simp only [hx, if_false] at h
+      by_cases hc : x = .ifC
+      · subst hc
+        simp only [if_true, Option.some.injEq, Prod.mk.injEq] at h
+        obtain ⟨rfl, rfl, rfl⟩ := h
+        simp [condGo]
+      · simp only [hc, if_false] at h
+        cases hl : lazyTok r with
+        | none => simp [hl] at h
+        | some y =>
+          simp only [hl, Option.map, Option.some.injEq, Prod.mk.injEq] at h
+          obtain ⟨rfl, rfl, rfl⟩ := h
+          have := ih (acc ++ [x]) y.1 y.2.1 y.2.2 (by rw [hl])
+          cases x <;> first | (exact absurd rfl hx) | (exact absurd rfl hc) | (simp [condGo, this])
+
+theorem splitTok_length (t0 : Tok) (r e rest : List Tok) (h : splitTok t0 r = some (e, rest)) : rest.length < r.length := by
+  induction r generalizing e with
+  | nil => simp [splitTok] at h
+  | cons x r ih =>
+    simp only [splitTok] at h
+    split at h
+    · simp only [Option.some.injEq, Prod.mk.injEq] at h; rw [← h.2]; simp
+    · cases hh : splitTok t0 r with
+      | none => simp [hh] at h
+      | some y =>
+        simp only [hh, Option.map, Option.some.injEq, Prod.mk.injEq] at h
+        have := ih y.1 (by rw [hh, ← h.2])
+        simp; omega
+
+theorem lazyTok_length (r a : List Tok) (e : Option (List Tok)) (rest : List Tok) (h : lazyTok r = some (a, e, rest)) :
+    rest.length < r.length := by
+  induction r generalizing a with
+  | nil => simp [lazyTok] at h
+  | cons x r ih =>
+    simp only [lazyTok] at h
+    split at h
+    · rename_i y hy
+      split at hy
+      · cases hs : splitTok .ifC r with
+        | none => simp [hs] at hy
+        | some z =>
+          simp only [hs, Option.map, Option.some.injEq] at hy
+          subst hy
+          simp only [Option.some.injEq, Prod.mk.injEq] at h
+          have := splitTok_length .ifC r z.1 z.2 (by rw [hs])
+          rw [← h.2.2]; simp; omega
+      · cases hy
+    · split at h
+      · simp only [Option.some.injEq, Prod.mk.injEq] at h; rw [← h.2.2]; simp
+      · cases hl : lazyTok r with
+        | none => simp [hl] at h
+        | some y =>
+          simp only [hl, Option.map, Option.some.injEq, Prod.mk.injEq] at h
+          have := ih y.1 (by rw [hl, ← h.2.2, ← h.2.1])
+          simp; omega
+
+end Operon.Tmpl
+
+namespace Operon.Tmpl
+open Operon.Ribosome
+
+theorem splitTok_decomp (t0 : Tok) (r e rest : List Tok) (h : splitTok t0 r = some (e, rest)) : r = e ++ t0 :: rest := by
+  induction r generalizing e with
+  | nil => simp [splitTok] at h
+  | cons x r ih =>
+    simp only [splitTok] at h
+    split at h
+    · rename_i hx
+      simp only [Option.some.injEq, Prod.mk.injEq] at h
+      obtain ⟨rfl, rfl⟩ := h
+      simp [hx]
+    · cases hh : splitTok t0 r with
+      | none => simp [hh] at h
+      | some y =>
+        simp only [hh, Option.map, Option.some.injEq, Prod.mk.injEq] at h
+        obtain ⟨rfl, rfl⟩ := h
+        have := ih y.1 (by rw [hh])
+        simp [← this]
+
+def elsPart : Option (List Tok) → List Tok
+  | none => []
+  | some e => .els :: e
+
+theorem lazyTok_decomp (r a : List Tok) (e : Option (List Tok)) (rest : List Tok) (h : lazyTok r = some (a, e, rest)) :
+    r = a ++ elsPart e ++ .ifC :: rest := by
+  induction r generalizing a with
+  | nil => simp [lazyTok] at h
+  | cons x r ih =>
+    simp only [lazyTok] at h
+    by_cases hx : x = .els
+    · subst hx
+      cases hs : splitTok .ifC r with
+      | some y =>
+        simp only [hs, if_true, Option.map, Option.some.injEq, Prod.mk.injEq] at h
+        obtain ⟨rfl, rfl, rfl⟩ := h
+        have := splitTok_decomp .ifC r y.1 y.2 (by rw [hs])
+        simp [elsPart, ← this]
+      | none =>
+        have := lazyTok_of_no_close r (splitTok_none _ _ hs)
+        simp [hs, this] at h
+    · simp only [hx, if_false] at h
+      by_cases hc : x = .ifC
+      · subst hc
+        simp only [if_true, Option.some.injEq, Prod.mk.injEq] at h
+        obtain ⟨rfl, rfl, rfl⟩ := h
+        simp [elsPart]
+      · simp only [hc, if_false] at h
+        cases hl : lazyTok r with
+        | none => simp [hl] at h
+        | some y =>
+          simp only [hl, Option.map, Option.some.injEq, Prod.mk.injEq] at h
+          obtain ⟨rfl, rfl, rfl⟩ := h
+          have := ih y.1 (by rw [hl])
+          simp only [List.cons_append]
+          rw [← this]
+
+theorem printToks_append (a b : List Tok) : printToks (a ++ b) = printToks a ++ printToks b := by
+  simp [printToks]
+
+theorem printToks_cons (t : Tok) (b : List Tok) : printToks (t :: b) = t.print ++ printToks b := by
+  simp [printToks]
+
+/-- a scan steps over a whole printed token when the matcher fires neither at its start nor (being a `{{`-matcher)
+    inside it -/
+theorem scan_over_tok {α : Type} (cfg : Cfg) (hs : CfgSane cfg) (m : Str → Option (α × Str)) (hm : NeedsLL m) (t : Tok)
+    (hw : t.wfp cfg) (rest : Str) (h0 : t.print ≠ [] → m (t.print ++ rest) = none) (f : Nat) :
+    scan m (t.print.length + f) (t.print ++ rest) = t.print.map Sum.inl ++ scan m f rest := by
+  apply scan_skip
+  intro i hi
+  match i with
+  | 0 => simp only [List.drop_zero]; exact h0 (by intro e; rw [e] at hi; simp at hi)
+  | i + 1 => exact inner_none cfg hs m hm t hw _ (i + 1) (by omega) hi
+
+/-- THE CONDITIONAL PASS of the string layer (`_process_conditionals`: one lazy regex with an optional else part) is the
+    token layer's left-to-right state machine `condPass`, on the printed form of every well-formed token list — nested,
+    stray and unclosed block tags included. -/
+theorem processConditionals_print (cfg : Cfg) (hs : CfgSane2 cfg) (ctx : Ctx) (ts : List Tok)
+    (hw : ∀ t ∈ ts, t.wfs cfg) :
+    processConditionals cfg ctx (printToks ts) = printToks (condPass ctx ts) := by
+  unfold processConditionals scanStr condPass
+  suffices H : ∀ (k : Nat) (ts : List Tok), ts.length ≤ k → (∀ t ∈ ts, t.wfs cfg) → ∀ f, (printToks ts).length ≤ f →
+      subWith (fun (m : CondM) => if truthyOf ctx m.name then m.thn else m.els.getD [])
+        (scan (matchCond cfg) f (printToks ts)) = printToks (condGo ctx .out ts) from
+    H ts.length ts (Nat.le_refl _) hw _ (by omega)
+  intro k
+  induction k with
+  | zero =>
+    intro ts hl _ f _
+    have : ts = [] := List.length_eq_zero_iff.mp (by omega)
+    subst this
+    simp [printToks, scan_nil, subWith, condGo]
+  | succ k ih =>
+    intro ts hl hw f hf
+    cases ts with
+    | nil => simp [printToks, scan_nil, subWith, condGo]
+    | cons t r =>
+      have hwt := hw t (by simp)
+      have hwr : ∀ x ∈ r, x.wfs cfg := fun x hx => hw x (by simp [hx])
+      have hwpr : ∀ x ∈ r, x.wfp cfg := fun x hx => (hwr x hx).wfp hs
+      have hrl : r.length ≤ k := by simp at hl; omega
+      rw [printToks_cons] at hf ⊢
+      rw [List.length_append] at hf
+      by_cases hhit : ∃ ws n a e rest, t = .ifO ws n ∧ lazyTok r = some (a, e, rest)
+      · obtain ⟨ws, n, a, e, rest, rfl, hl'⟩ := hhit
+        have hd := lazyTok_decomp r a e rest hl'
+        have hm0 : matchCond cfg ((Tok.ifO ws n).print ++ printToks r)
+            = some (⟨n, printToks a, e.map printToks⟩, printToks rest) := by
+          simp [matchCond, mHeadIf_at cfg hs _ hwt rfl, viewIfO, lazyIf_print cfg hs.toCfgSane r hwpr, hl', prT]
+        have hne : (Tok.ifO ws n).print = 123 :: ((Tok.ifO ws n).print.drop 1) := by simp [Tok.print, IFH]
+        obtain ⟨f', rfl⟩ : ∃ f', f = f' + 1 := ⟨f - 1, by rw [hne] at hf; simp at hf; omega⟩
+        have hlen : (printToks rest).length ≤ f' := by
+          have : (printToks r).length = (printToks a).length + (printToks (elsPart e)).length
+              + (Tok.ifC.print.length + (printToks rest).length) := by
+            rw [hd]; simp [printToks_append, printToks_cons]; omega
+          rw [hne] at hf; simp at hf; omega
+        have hstep : scan (matchCond cfg) (f' + 1) ((Tok.ifO ws n).print ++ printToks r)
+            = .inr ⟨n, printToks a, e.map printToks⟩ :: scan (matchCond cfg) f' (printToks rest) := by
+          rw [hne] at hm0 ⊢
+          simp only [List.cons_append] at hm0 ⊢
+          simp only [scan, hm0]
+        rw [hstep]
+        simp only [subWith]
+        rw [ih rest (by have := lazyTok_length r a e rest hl'; omega)
+          (fun x hx => hwr x (by rw [hd]; simp [hx])) f' hlen]
+        simp only [condGo, condGo_lazy ctx ws n r [] a e rest hl', List.nil_append, printToks_append]
+        congr 1
+        cases truthyOf ctx n <;> cases e <;> simp [printToks]
+      · -- no hit at this token: it is stepped over
+        have hm0 : t.print ≠ [] → matchCond cfg (t.print ++ printToks r) = none := by
+          intro hne
+          cases htag : t.isTag
+          · rcases print_shape cfg hs.toCfgSane t (hwt.wfp hs) with ⟨_, hp⟩ | ⟨h1, _⟩
+            · have := plain_none _ (needsLL_cond cfg) t.print (printToks r) hp 0
+                (by cases h : t.print <;> simp_all)
+              simpa using this
+            · rw [htag] at h1; cases h1
+          · have hH := mHeadIf_at cfg hs t hwt htag (printToks r)
+            cases t with
+            | ifO ws n =>
+              cases hl' : lazyTok r with
+              | none => simp [matchCond, hH, viewIfO, lazyIf_print cfg hs.toCfgSane r hwpr, hl']
+              | some y => exact absurd ⟨ws, n, y.1, y.2.1, y.2.2, rfl, hl'⟩ hhit
+            | _ => simp [matchCond, hH, viewIfO]
+        have hsplit : f = t.print.length + (f - t.print.length) := by omega
+        rw [hsplit, scan_over_tok cfg hs.toCfgSane _ (needsLL_cond cfg) t (hwt.wfp hs) _ hm0, subWith_inl,
+          ih r hrl hwr _ (by omega)]
+        have htok : condGo ctx .out (t :: r) = t :: condGo ctx .out r := by
+          cases t with
+          | ifO ws n =>
+            have hnone : lazyTok r = none := by
+              cases hl' : lazyTok r with
+              | none => rfl
+              | some y => exact absurd ⟨ws, n, y.1, y.2.1, y.2.2, rfl, hl'⟩ hhit
+            have hnc := lazyTok_none r hnone
+            simp [condGo, condGo_no_close ctx r hnc, verbatim]
+          | _ => simp [condGo]
+        rw [htok, printToks_cons]
+
+/-- the conditional pass only drops or keeps tokens -/
+theorem condGo_mem (ctx : Ctx) (r : List Tok) : ∀ st, ∀ x ∈ condGo ctx st r, x ∈ verbatim st ++ r := by
+  induction r with
+  | nil => intro st x hx; cases st <;> simp [condGo, verbatim] at hx ⊢ <;> exact hx
+  | cons t r ih =>
+    intro st x hx
+    cases st with
+    | out =>
+      cases t with
+      | ifO ws n =>
+        have := ih (.thn ws n []) x (by simpa [condGo] using hx)
+        simpa [verbatim] using this
+      | _ =>
+        simp only [condGo, List.mem_cons] at hx
+        rcases hx with rfl | hx
+        · simp [verbatim]
+        · have := ih .out x hx; simp [verbatim] at this ⊢; exact Or.inr this
+    | thn ws n acc =>
+      cases t with
+      | ifC =>
+        simp only [condGo, List.mem_append] at hx
+        rcases hx with hx | hx
+        · split at hx
+          · simp [verbatim, hx]
+          · simp at hx
+        · have := ih .out x hx; simp [verbatim] at this ⊢; exact Or.inr (Or.inr (Or.inr this))
+      | els =>
+        have := ih (.els ws n acc []) x (by simpa [condGo] using hx)
+        simp [verbatim] at this ⊢
+        rcases this with h | h | h | h <;> simp [h]
+      | _ =>
+        have := ih (.thn ws n (acc ++ [_])) x (by simpa [condGo] using hx)
+        simp [verbatim] at this ⊢
+        rcases this with h | h | h | h <;> simp [h]
+    | els ws n a acc =>
+      cases t with
+      | ifC =>
+        simp only [condGo, List.mem_append] at hx
+        rcases hx with hx | hx
+        · split at hx <;> simp [verbatim, hx]
+        · have := ih .out x hx; simp [verbatim] at this ⊢; simp [this]
+      | _ =>
+        have := ih (.els ws n a (acc ++ [_])) x (by simpa [condGo] using hx)
+        simp [verbatim] at this ⊢
+        rcases this with h | h | h | h | h <;> simp [h]
+
+theorem condPass_wfs (cfg : Cfg) (ctx : Ctx) (ts : List Tok) (hw : ∀ t ∈ ts, t.wfs cfg) :
+    ∀ t ∈ condPass ctx ts, t.wfs cfg := by
+  intro x hx
+  have := condGo_mem ctx ts .out x hx
+  exact hw x (by simpa [verbatim] using this)
+
+end Operon.Tmpl
